@@ -397,6 +397,25 @@ def extract_isolation(E):
                 and st.targets[0].value.id == "Environment" and st.targets[0].attr == "_env" and isinstance(st.value, ast.Name) and st.value.id == "self")
     m = _top_level_unconditional(f, is_env_assign) if f is not None else []
     E.t.append("/-- `Environment.__init__` installs the new instance as the singleton unconditionally -/\ndef envSingletonReplaced : Bool := %s" % str(bool(m) and all(u for _, u in m)).lower())
+    # 5b. the namespace a source-code strategy (run_file / run_code) is exec'ed into: `create_base_scope` must hand out a COPY of the API module's namespace
+    tree_m, _src_m = parse("rqalpha/main.py")
+    cbs = find_func(tree_m, "create_base_scope")
+    copied = False
+    if cbs is not None:
+        rets = [n for n in ast.walk(cbs) if isinstance(n, ast.Return)]
+
+        def is_copy(v):
+            if isinstance(v, ast.Call):
+                fn = v.func
+                if isinstance(fn, ast.Name) and fn.id in ("copy", "deepcopy", "dict"):
+                    return True
+                if isinstance(fn, ast.Attribute) and fn.attr in ("copy", "deepcopy"):
+                    return True
+            return isinstance(v, (ast.Dict, ast.DictComp))
+        copied = bool(rets) and all(r.value is not None and is_copy(r.value) for r in rets)
+        E.fp["create_base_scope"] = fingerprint(cbs)
+    E.t.append("/-- `main.create_base_scope` returns a copy (copy(...), dict(...), .copy(), a dict display) on every path: what a strategy source defines does not land in the shared module namespace -/\n"
+               "def baseScopeCopied : Bool := %s" % str(copied).lower())
     # 6. caches that `clear_all_cached_functions` cannot reach: stdlib functools caches on module-level functions
     bad = []
     for path in sorted(glob.glob(os.path.join(REPO, "rqalpha", "**", "*.py"), recursive=True)):
